@@ -11,8 +11,8 @@ os.makedirs(dst, exist_ok=True)
 for f in ("patch.diff", "demo.diff", "notes.md"):
     if os.path.exists(os.path.join(src, f)):
         shutil.copy(os.path.join(src, f), os.path.join(dst, f))
-prop = next(json.loads(l) for l in open(os.path.join(root, "properties.jsonl")) if json.loads(l)["id"] == pid)
-meta = dict(property=pid, title=prop["title"], crate=crate, origin="independent sub-agent given only the property text and a scratch worktree",
+prop = next(json.loads(l) for l in open(os.path.join(root, "properties.jsonl")) if json.loads(l)["id"] == pid.split('-')[0])
+meta = dict(property=pid.split('-')[0], seed=pid, title=prop["title"], crate=crate, origin="independent sub-agent given only the property text and a scratch worktree",
             needs_to_manifest=needs, caught_by_check=caught, check_reaction=reaction,
             confirmed=dict(how="tools/seed_verify.sh in a fresh worktree of /repo HEAD with a private target dir: demo passes without the change, fails with it, the crate's existing tests pass with it; then tools/mutcheck.py (the whole check on a private copy of /repo + harness with the patch applied)",
                            log=(open(log).read()[-3000:] if log and os.path.exists(log) else None)))
@@ -20,7 +20,7 @@ json.dump(meta, open(os.path.join(dst, "meta.json"), "w"), indent=1)
 rows = []
 for m in sorted(glob.glob(os.path.join(root, "seeded", "*", "meta.json"))):
     x = json.load(open(m))
-    rows.append(f"| {x['property']} | {x['crate']} | {x['needs_to_manifest']} | {x['caught_by_check']} | {x['check_reaction']} |")
+    rows.append(f"| {x.get('seed', x['property'])} | {x['crate']} | {x['needs_to_manifest']} | {x['caught_by_check']} | {x['check_reaction']} |")
 open(os.path.join(root, "seeded", "README.md"), "w").write(
     "# Seeded changes (independently produced) and which check catches them\n\n"
     "Each directory holds `patch.diff` (the breaking change), `demo.diff` (a test that fails with it and passes without), the author's `notes.md` and `meta.json`.\n"
